@@ -465,7 +465,7 @@ K7_EXCEPTIONS = {
     'enqueue_task::cancel': 'enqueued tasks have no wait reference; cancel() is an assert-release "cannot happen" stub',
     'task_proxy::execute': 'proxies are never executed (assert-release stub)',
     'task_proxy::cancel': 'proxies are never executed (assert-release stub)',
-    'resume_task::cancel': 'assert-release unreachable stub',
+    'resume_task::cancel': 'forwards to execute() (C20-D5 checks that); no wait reference of its own',
 }
 
 
